@@ -16,15 +16,14 @@ is switched off; integer part grouped in threes from the right; '-' for values b
 is enabled and all printed fraction digits are zero (or there are none); '%' prefix; currency symbol, placement and
 digits from config.json; the unit's format string.
 
-Known class C07-double-rounding: the separately rounded copy round(x*10^n)/10^n disagrees with the rendering on the
-length of the integer part or on fraction-is-zero (recomputed here in binary64 for the line's value, digits, rounding)."""
+The former known class C07-double-rounding (integer-part length and zero-fraction test taken from a separately rounded
+copy round(x*10^n)/10^n) was repaired in /repo 9ef4dcc: no class is excused any more, every line must pass the oracle."""
 import json, math
 from decimal import Decimal, ROUND_HALF_EVEN, localcontext
 from .common import *
 
 ALLOWED_AXIOMS = []
 DETAIL = 0
-CLASS = "C07-double-rounding"
 RULE = ("values: rounding boundaries k + 0.5*10^-n +- 1 ulp (k in 0, 1, 9, 99, 999, 999999, ...), 0.995, 99.995, 999.995, "
         "999999.995, values below one unit of the last digit, +-0, negatives, 10^0..10^22, 2^53, largest finite, smallest "
         "subnormal, k/8 ties, random magnitudes 1e-9..1e18; x digits 0..9 x both flags x 6 separator pairs x 14 currencies "
@@ -126,58 +125,6 @@ def expected(item, cfg):
         rnd = True if rnd is None else rnd
         return fmt.replace("{value}", spec_number(x, n, rm, rnd, dsep, tsep)), n, rnd
     raise ValueError(k)
-
-
-# ---------------------------------------------------------------- the class predicate (binary64, as the code computes)
-def rust_round(f):
-    if math.isinf(f) or math.isnan(f):
-        return f
-    t = float(math.trunc(f))
-    if abs(f - t) >= 0.5:
-        t += math.copysign(1.0, f)
-    return t
-
-
-def powi10(n):
-    a, r, b = 10.0, 1.0, n
-    while True:
-        if b & 1:
-            r *= a
-        b >>= 1
-        if b == 0:
-            return r
-        a *= a
-
-
-def fract_information(f):
-    f = abs(f)
-    f = f - math.trunc(f)
-    if f == 0.0:
-        return 0
-    eps = 1e-4
-    while abs(rust_round(f) - f) <= eps:
-        f *= 10.0
-    while abs(rust_round(f) - f) > eps:
-        f *= 10.0
-    r = rust_round(f)
-    if math.isnan(r):
-        return 0
-    if math.isinf(r):
-        return 2 ** 64 - 1
-    return max(0, min(int(r), 2 ** 64 - 1))
-
-
-def inconsistent(x, n, rnd):
-    """Proofs/C07.v Inconsistent: the copy round(x*10^n)/10^n against the rendering that supplies the digits"""
-    div = powi10(n)
-    copy = do_division(rust_round(x * div), div)
-    trunc_part = display_str(abs(float(math.trunc(copy))))
-    fp = fract_information(copy - math.trunc(copy))
-    st = fixed_str(abs(x), n) if rnd else display_str(abs(x))
-    ip, _, frac = st.partition(".")
-    len_agree = len(trunc_part) == len(ip)
-    frac_agree = (fp > 0) == (not set(frac) <= {"0"})
-    return not (len_agree and frac_agree)
 
 
 # ---------------------------------------------------------------- generator
@@ -340,26 +287,25 @@ def generate(rng, tier):
 
 # ---------------------------------------------------------------- verdicts
 def failures(c, rec):
-    """[(line index, reason, in_known_class)]"""
+    """[(line index, reason)]"""
     m = c["meta"]
     items, cfg = m["items"], m["cfg"]
     lines = last_lines(rec)
     if lines is None:
-        return [(-1, "evaluation panicked or hung", False)]
+        return [(-1, "evaluation panicked or hung")]
     if len(lines) != len(items):
-        return [(-1, "expected %d result lines, got %d" % (len(items), len(lines)), False)]
+        return [(-1, "expected %d result lines, got %d" % (len(items), len(lines)))]
     out = []
     for i, (it, l) in enumerate(zip(items, lines)):
         x = from_bits(it["bits"])
         exp, n, rnd = expected(it, cfg)
         kind, v = line_value(l)
         if kind != "item" or str(v.get("v")) != str(it["bits"]):
-            out.append((i, "line %d: the value %r was not injected exactly: %r" % (i, x, l), False))
+            out.append((i, "line %d: the value %r was not injected exactly: %r" % (i, x, l)))
             continue
         if l["out"] != exp:
             out.append((i, "line %d: %s %r (binary64 %s) with %d digits, rounding %s: expected %r, printed %r"
-                        % (i, it["k"], x, Decimal(x) if abs(x) < 1e30 else repr(x), n, "on" if rnd else "off", exp, l["out"]),
-                        inconsistent(x, n, rnd)))
+                        % (i, it["k"], x, Decimal(x) if abs(x) < 1e30 else repr(x), n, "on" if rnd else "off", exp, l["out"])))
     return out
 
 
@@ -377,23 +323,12 @@ def nontrivial(c, rec):
 
 def spec_check(c, rec, header):
     f = failures(c, rec)
-    if not f:
-        return None
-    outside = [x for x in f if not x[2]]
-    return (outside or f)[0][1]
+    return f[0][1] if f else None
 
 
 def known_class(c, rec, verdict, known):
-    if not any(k.get("class") == CLASS for k in known):
-        return None
-    f = failures(c, rec)
-    if f and all(x[2] for x in f):
-        return CLASS
     return None
 
 
 def witness_fails(f, wc, rec, header):
-    """the recorded witness still prints something else than specified"""
-    if "meta" not in wc:
-        return False
-    return bool(failures(wc, rec))
+    return False
